@@ -92,6 +92,16 @@ pub fn run(ctx: &Ctx, rep: &mut Report) {
                         continue;
                     }
                 };
+                if n % 100_000 == 11 {
+                    rep.sample(6, || {
+                        let mut o = J::obj();
+                        o.set("type", J::i(t as u64));
+                        o.set("bits_148_167", J::s(&format!("{:#07x}", bits.uint(148, 20))));
+                        o.set("reference", J::s(&format!("{:?}", want)));
+                        o.set("observed", J::s(&format!("{:?}", got)));
+                        o
+                    });
+                }
                 if want.iter().any(|w| *w == got) {
                     agree += 1;
                     continue;
